@@ -12,12 +12,18 @@ CLAIMED = {
  "C04": dict(level="exploration", technique="bounded-exhaustive differential execution (optimize off vs on) of enumerated programs with host-effect log",
    text="Every enumerated program with host effects, explicit failures and discarded bindings up to size 5 (quick) / 6 (thorough), the full product of 16 dead/live positions x 14 effectful or failing expressions (direct, through record fields, closures, partial applications, an imported module) and ordered pairs of them, and the C01 feature products are each compiled twice by the real pipeline and compared on value, failure and the sequence of host-function calls.",
    note="Differential on gluon itself; the only tolerated difference is computed exactly from the reference semantics (first j failing unused built-in arithmetic operations skipped).", ref="4.4"),
+ "C07": dict(level="fault_enumeration", technique="exhaustive grid of limits and interrupt placements over program families, observed through VM hooks",
+   text="12 recursion families (direct, mutual, through closure argument, record field, partial application, over-application, tail position in if/match/let; tail and non-tail) and 5 allocation families are run at depths 100..100000 without limits (tail families: the peak VM stack must not depend on the depth), under every stack limit of a dense grid (every value 1..256, then steps; every value 1..512 thorough), under every memory limit baseline+8k of a dense grid, and with an interrupt requested at EVERY function entry of a run. Hooks observe accounted memory right after each limit-checked allocation, the absolute stack length and the per-frame use against the function's declared max_stack_size at every instruction.",
+   note="Needs the gluon_verif hooks (on_alloc, on_instr). Allocations the VM deliberately makes outside the limit (error messages) are not counted; an OOM inside a primitive surfaces as a panic carrying the out-of-memory message and is accepted.", ref="4.7"),
  "C08": dict(level="exploration", technique="bounded-exhaustive enumeration of operator chains against a brute-force grouping reference and of ASTs x concrete styles round-tripped through the real parser",
    text="(1) ALL operator chains with up to 6 operands (7 thorough) over declared operators covering every precedence relation and associativity incl. equal precedence with opposite associativity, and the built-in operators: gluon's tree after reparse_infix must equal the unique tree consistent with all adjacent-operator constraints, conflicts must be reported (also observed end-to-end by evaluating tree-building operators). (2) All harness ASTs up to size 5 (6) plus a nesting family and a literal family, printed in 10 (16) concrete styles (explicit in, layout with indent 1/2/4, redundant parentheses at every position, comments/blank lines in every gap) parse back to the same tree; spans are in-bounds, nested, ordered, and re-parsing src[span] yields the subtree.",
    note="Only layouts documented in the book or used by std are printed; undocumented layouts are never demanded.", ref="4.8"),
  "C09": dict(level="exploration", technique="bounded-exhaustive enumeration of token/character strings, single-edit mutants of a corpus and nesting ramps, run through the real front end in watchdogged worker processes",
    text="All token sequences up to length 4 (5 thorough) over three 16-token alphabets in three indentation patterns, all character strings up to length 3 (4) over 28 lexically interesting characters, every first-order mutant (delete / duplicate / swap token, truncate at every token and inside multi-byte characters, re-indent a line) of the .glu corpus of /repo and of generated programs, and nesting ramps to depth 256 are pushed through typecheck_str (lex, layout, parse, macro expansion, rename, typecheck) in child processes with a CPU-time watchdog; no panic, abort, stack overflow or hang; every error span inside its file on char boundaries; emit_string() renders.",
    note="Exhaustive over short strings and single edits only; arbitrary 4 KiB text is not enumerable and not claimed. Corpus mutants go through the pipeline function typecheck_str delegates to (cross-checked through typecheck_str for findings).", ref="4.9"),
+ "C11": dict(level="exploration", technique="bounded-exhaustive enumeration of values of a family of 60 Rust types through all marshalling routes, compared with the originals",
+   text="60 Rust types (scalars, Option/Result/Vec/tuples/BTreeMap nested to depth 2 quick / 3 thorough, derived structs incl. reordered fields and generics, enums with unit/tuple/struct variants) x the full cartesian product of boundary leaf alphabets are sent through: push/get on the stack, marshal to a rooted value and back, a Gluon identity function, a Gluon function rebuilding the value constructor by constructor, a Gluon-computed fingerprint compared with Rust's, and the serde bridge (Ser then De, in child processes where it can crash). A 26x26 matrix of Gluon globals requested at Rust types must be accepted exactly on type equality.",
+   note="Float equality by bits except NaN payloads; u64/usize above i64::MAX only round trip; Gluon show formats are not used.", ref="4.11"),
  "C12": dict(level="fault_enumeration", technique="bounded-exhaustive round trip of enumerated programs through real bytecode serialisation plus exhaustive truncation / undefined-reference fault enumeration in isolated processes",
    text="Every enumerated program up to size 5 (quick) / 6 (thorough) and the feature products is compiled to bytecode with the real compile_to_bytecode (serde_json), loaded and run in the same VM and in a fresh VM (dependencies imported first) and compared with the source run; each such module is also loaded into a VM without its dependencies (must be an error, not a crash). For a base set of ~22 programs EVERY truncation length of the serialised module and EVERY string leaf replaced by an undefined name is loaded in a worker process followed by a canary evaluation.",
    note="Only the serde_json route; corrupted modules that still deserialise may legitimately run; panics, crashes, hangs and an unusable VM are the violations.", ref="4.12"),
